@@ -242,6 +242,7 @@ def make_texts(rng, n_gen, corpus_limit=None):
     rest = [x for x in H if x[0] not in ("symmetry", "unused", "regression", "projection")]
     if corpus_limit is not None:
         rest = rng.sample(rest, min(len(rest), corpus_limit))
+        pref = rng.sample(pref, min(len(pref), 2 * corpus_limit))
     texts = [("corpus:" + o, t) for o, t in pref + rest]
     for i in range(n_gen):
         r = rng.random()
